@@ -774,6 +774,7 @@ inductive Kind where
   | stream (parts : List Bytes) (fin : Bool)  -- `write(part)` repeatedly, then the last chunk by hand
   | redirect (loc : Bytes) (b : Bytes)        -- `Location` unless the request target is `loc`
   | streamAuto (parts : List Bytes)           -- `write(part)` repeatedly with no framing header set: the library announces and ends the chunks
+  | streamFile (pre : Bytes) (content : Bytes) -- `write(pre)` (or `sendHeaders()` alone when empty), then `put(File)`: the server's file branch runs behind the headers
   | missing                                   -- `put(File)` of a file that does not exist
   | redirectRel (loc rel : Bytes) (b : Bytes) -- `Location: rel` verbatim (none when empty) and a 5-byte body, unless the request target is `loc`
 deriving Repr, Inhabited
@@ -869,10 +870,35 @@ def serveOne (blk rblk : Nat) (optionsDefault : Bool) (q : Request) (p : Plan) (
         { called := true, wire := serializeWith blk { command := statusLine proto p.code, headers := h, body := sMoved }, keep := keep }
     | .stream parts fin =>
       let h := setHeader h sTransferEncoding sChunked
+      if parts.isEmpty then
+        -- nothing was written by the handler: the headers are still unsent, the server's closing put("") + write() writes
+        -- the whole (empty, chunked) message and ends it
+        let h := allow p.code (setHeader h sContentLength [48])
+        { called := true, wire := serializeWith blk { command := statusLine proto p.code, headers := h, body := [] }, keep := keep }
+      else
       { called := true, wire := serializeStream blk proto p.code h parts fin, keep := keep }
     | .streamAuto parts =>
       -- an unframed stream to an HTTP/1.0 request ends with the connection
       { called := true, wire := serializeStream blk proto p.code h parts false, keep := keep && !endByClose proto p.code h }
+    | .streamFile pre content =>
+      -- the headers are out when the server's file branch runs: its status and header changes show nowhere, but a Range
+      -- of the request still selects the bytes `putFile` writes (nothing when it is unsatisfiable)
+      let n := content.length
+      let body : Bytes :=
+        if hasHeader q.headers sRange then
+          let range := header q.headers sRange
+          if startsWith range sBytesEq ∧ ¬ range.contains 44 then
+            match rangeOf n (rangeArgs n (range.drop 6)).1 (rangeArgs n (range.drop 6)).2 with
+            | some (b', e') => fileSlice content b' e'
+            | none => []
+          else content
+        else content
+      let hs := streamHeaders proto p.code h
+      let c := isChunked hs && !endByClose proto p.code h
+      { called := true,
+        wire := headerBlock (statusLine proto p.code) hs ++ (if pre.isEmpty then [] else writeBody c blk pre) ++
+          writeFile c blk rblk body ++ (if ownChunks proto p.code h then lastChunk else []),
+        keep := keep && !endByClose proto p.code h }
     | .missing =>
       -- 404 "Not found" as an ordinary body; the connection is kept or closed as after any other response (f26c43e)
       let h := allow p.code h
